@@ -1,1 +1,6 @@
-CONSTANT K = 2
+SPECIFICATION Spec
+CONSTANT K = 3
+CONSTRAINT Emit
+INVARIANT TypeOK
+INVARIANT ExpectedSound
+CHECK_DEADLOCK FALSE
